@@ -71,4 +71,15 @@ def run_case(case: dict[str, Any], tier: str, seed: int) -> dict[str, Any]:
     if not prog.numeric:
         return {"status": "skipped", "reason": "metadata_skips_numeric_validation"}
     res = programs.differential(prog, _draws(prog.pid, tier, seed), seed=seed)
-    return recs.record_from_differential(prog, res)
+    rec = recs.record_from_differential(prog, res)
+    if case["src"] == "sentinel":
+        from vlib import sentinels
+
+        for extra in sentinels.extra_programs(case):
+            r2 = recs.record_from_differential(extra, programs.differential(extra, [], seed=seed))
+            rec["evals"] = rec.get("evals", 0) + r2.get("evals", 0)
+            rec.setdefault("nontrivial", []).extend(r2.get("nontrivial", []))
+            rec.setdefault("violations", []).extend(r2.get("violations", []))
+            if r2.get("status") == "violated" or (rec.get("status") in ("inconclusive", "skipped") and r2.get("status") == "held"):
+                rec["status"] = r2["status"]
+    return rec
